@@ -51,7 +51,8 @@ def tag_name(t):
 
 class _Canon:
 
-  def __init__(self, with_tags=True, opaque_callables=False):
+  def __init__(self, with_tags=True, opaque_callables=False, kw_unordered=False):
+    self.kw_unordered = kw_unordered
     self.opaque_callables = opaque_callables
     self.ids = {}
     self.keep = []  # pin visited objects so ids are not recycled
@@ -68,6 +69,15 @@ class _Canon:
     self.ids[oid] = n
     self.keep.append(obj)
     return n, False
+
+  def _kw(self, v):
+    """The **kwargs dict a stub received; by key if their order is unspecified."""
+    if self.kw_unordered and type(v) is dict:
+      n, seen = self._number(v)
+      if seen:
+        return {'ref': n}
+      return {'#': n, 'dict': [[self.go(k), self.go(v[k])] for k in sorted(v, key=repr)]}
+    return self.go(v)
 
   def _has_mutable(self, x, depth=0):
     """True if tuple x transitively contains a numbered (mutable) object."""
@@ -141,7 +151,8 @@ class _Canon:
       if seen:
         return {'ref': n}
       return {'#': n, 'rec': x.stub,
-              'args': [[k, self.go(v)] for k, v in sorted(x.args.items())]}
+              'args': [[k, self._kw(v) if k == 'kw' else self.go(v)]
+                       for k, v in sorted(x.args.items())]}
     rec = getattr(x, '_fsim_rec', None)
     if isinstance(rec, stubmod.Rec):
       n, seen = self._number(x)
@@ -250,8 +261,9 @@ def as_node(x):
   return None
 
 
-def canon(x, with_tags=True, opaque_callables=False):
-  return _Canon(with_tags=with_tags, opaque_callables=opaque_callables).go(x)
+def canon(x, with_tags=True, opaque_callables=False, kw_unordered=False):
+  return _Canon(with_tags=with_tags, opaque_callables=opaque_callables,
+                kw_unordered=kw_unordered).go(x)
 
 
 def canon_exc(e):
